@@ -2,6 +2,7 @@ import AslModel.WebSocket
 import AslProofs.WebSocket
 import AslProofs.WebSocketClient
 import AslProofs.WebSocketCut
+import AslProofs.WebSocketPrefix
 import AslProofs.Sha1
 import AslProps.C15
 /-!
@@ -383,19 +384,54 @@ theorem cut_frame_is_terminal (fin : Bool) (op : Nat) (hop : op < 16) (key : Opt
   terminal_cut fin op hop key p hp k hk0 hk
 
 /-- the single statement for a cut at *any* byte offset `k` of a conversation: the non-empty results are
-    exactly the payloads of the messages wholly before the cut.  Every cut position strictly inside a frame
-    is proved above (`truncation_partial`: first frame of a message or a control frame between messages;
-    `truncation_inside_message`: any later frame of a message), cuts between messages are `messages_intact`
-    on the shorter conversation.  a cut exactly at a frame boundary inside a message is
-    `truncation_after_first_frame` / `truncation_at_boundary_inside_message` (below).  Not proved: the arithmetic step "every
-    `k` is one of these positions" (validated by the correspondence check on every offset of short streams; `hostile_safe`
-    covers it for safety). -/
+    exactly the payloads of the first `n` messages, for some `n`.  Proved below (`truncation_full_holds`) from prefix
+    monotonicity of the reader (`delivered_prefix_monotone`), `messages_intact` and `hostile_safe`; the theorems above say
+    *which* `n` for each class of cut position (inside a frame, at a frame boundary inside a message). -/
 def truncation_full : Prop :=
   ∀ (isClient : Bool) (rng : Rng) (ms : List Rfc6455.Msg) (trailing : List Rfc6455.Ctl) (k : Nat),
     (∀ m ∈ ms, MsgFits m) → CtlsFit trailing → (∀ m ∈ ms, m.payload ≠ []) →
     let r := run { isClient := isClient, rng := rng, inp := (Rfc6455.wire ms trailing).take k }
     ∃ (n : Nat), n ≤ ms.length ∧ r.1.filter (· ≠ []) = (ms.take n).map (·.payload) ∧
       r.2.closed = true ∧ r.2.fault = false
+
+/-- **Cutting a stream never changes what was delivered before the cut** — for *every* byte stream `s` (well-formed or hostile)
+    and every continuation `t`, either role: the non-empty results of reading `s` until `closed()` are a prefix of the non-empty
+    results of reading `s ++ t`.  (A `receive()` on `s` either gives up with an empty result, or does exactly what it does on
+    `s ++ t`: `AslProofs.WebSocket.recvLoop_ext`, from `frames_self_delimiting`.) -/
+theorem delivered_prefix_monotone (isClient : Bool) (rng : Rng) (s t : List UInt8) :
+    ∃ more, (run { isClient := isClient, rng := rng, inp := s ++ t }).1.filter (· ≠ []) =
+      (run { isClient := isClient, rng := rng, inp := s }).1.filter (· ≠ []) ++ more := by
+  have h1 := (fuel_irrelevant { isClient := isClient, rng := rng, inp := s } rfl t.length).2
+  have h2 : run { isClient := isClient, rng := rng, inp := s ++ t } =
+      receiveAll (s.length + 1 + t.length) (ext { isClient := isClient, rng := rng, inp := s } t) [] := by
+    unfold run ext
+    have : (s ++ t).length + 1 = s.length + 1 + t.length := by simp; omega
+    simp only [this]
+  rw [h2, ← h1]
+  exact receiveAll_ext _ _ [] t rfl
+
+/-- **`truncation_full` holds**: a connection cut at ANY byte offset `k` of any conversation (any messages, any fragmentation,
+    control frames anywhere, any keys, both roles) delivers exactly the first `n` messages for some `n`, intact, once, in order —
+    never a partial or altered message — and ends closed without a masking loop having left its buffer. -/
+theorem truncation_full_holds : truncation_full := by
+  intro isClient rng ms trailing k hfit hctl hne r
+  have hr : r = run { isClient := isClient, rng := rng, inp := (Rfc6455.wire ms trailing).take k } := rfl
+  clear_value r
+  subst hr
+  obtain ⟨more, hmore⟩ := delivered_prefix_monotone isClient rng ((Rfc6455.wire ms trailing).take k) ((Rfc6455.wire ms trailing).drop k)
+  rw [List.take_append_drop] at hmore
+  have hmi := (messages_intact isClient rng ms trailing hfit hctl hne).1
+  have hs := hostile_safe isClient rng ((Rfc6455.wire ms trailing).take k)
+  rw [hmi] at hmore
+  refine ⟨((run { isClient := isClient, rng := rng, inp := (Rfc6455.wire ms trailing).take k }).1.filter (· ≠ [])).length, ?_, ?_, hs.1, hs.2.1⟩
+  · have := congrArg List.length hmore
+    simp only [List.length_map, List.length_append] at this
+    omega
+  · rw [List.map_take, hmore, List.take_left']
+    rfl
+
+-- the hypotheses are those of `messages_intact` (satisfiable: the `MsgFits` example at the end of the file); a cut conversation:
+example : (run { isClient := false, rng := ⟨1, 2, 3, 4⟩, inp := ([0x81, 1, 0x61, 0x01, 3, 0x61, 0x62, 0x63, 0x80, 1, 0x64] : List UInt8).take 9 }).1.filter (· ≠ []) = [[0x61]] := by decide
 
 /-! ## handshake -/
 
